@@ -34,6 +34,7 @@ pub enum Cl {
     MapMod(i64),
     KeepMod(i64, i64),
     KeepLt(i64),
+    KeepGe(i64),
     KeepAll,
     Rep(usize, i64),
     RepMod(i64),
@@ -53,6 +54,7 @@ pub fn run_fil(c: Cl, x: i64) -> bool {
     match c {
         Cl::KeepMod(m, r) => x.rem_euclid(m) == r,
         Cl::KeepLt(t) => x < t,
+        Cl::KeepGe(t) => x >= t,
         Cl::KeepAll => true,
         _ => panic!("not a filter closure"),
     }
@@ -381,6 +383,7 @@ fn filf(t: &[&str]) -> Cl {
     match t[0] {
         "F" => Cl::KeepMod(p64(t[1]), p64(t[2])),
         "Fl" => Cl::KeepLt(p64(t[1])),
+        "Fg" => Cl::KeepGe(p64(t[1])),
         "Fa" => Cl::KeepAll,
         x => panic!("filf {}", x),
     }
@@ -419,7 +422,7 @@ pub fn parse_case(line: &str) -> Case {
         match t[0] {
             "M" => cl.push(Cl::Affine(p64(t[1]), p64(t[2]))),
             "Mm" => cl.push(Cl::MapMod(p64(t[1]))),
-            "F" | "Fl" | "Fa" => cl.push(filf(&t)),
+            "F" | "Fl" | "Fg" | "Fa" => cl.push(filf(&t)),
             "X" => cl.push(Cl::Rep(t[1].parse().unwrap(), p64(t[2]))),
             "Xm" => cl.push(Cl::RepMod(p64(t[1]))),
             "O" => cl.push(Cl::SomeMod(p64(t[1]), p64(t[2]), p64(t[3]), p64(t[4]))),
